@@ -24,19 +24,18 @@ theorem ecomax_cfg (mixers : Bool) :
     Gen.setupFrames.map (·.1) = [57, 85, 49, 61, 54, 50, 92, 58] := by
   cases mixers <;> decide
 
-/-- **setup_source_facts**: what the machine assumes about `devices/__init__.py` / `devices/ecomax.py`, read from the source
-on every run (Generated/Pipeline.lean) and pinned here: the device uses exactly the table `SETUP_FRAME_TYPES`, in its
-order; `EcoMAX.async_setup` waits for the sensor data and for nothing else before the requests start; the request loop
-runs while attempts are left (`retries > 0`: not at 0 — `step`'s `R = 0` branch —, at 1, 2, 3), retries only on the
-time-out, puts the request on the queue and waits for the value inside the loop, and ends with `ValueError(message, frame
-type)`; the error list takes argument 1 of the exceptions that `gather(..., return_exceptions=True)` returned. -/
+/-- **setup_source_facts**: what the machine assumes about `devices/__init__.py` / `devices/ecomax.py`, PROBED on the code
+on every run (Generated/Pipeline.lean: tools/gen_tables.py `_pipeline` runs the real coroutines) and pinned here: the
+device uses exactly the table `SETUP_FRAME_TYPES` and requests in its order; `EcoMAX.async_setup` starts the requests when
+the sensor data arrives and on nothing else; an unanswered request is transmitted exactly `retries` times (0, 1, 2, 3 → 0,
+1, 2, 3: no transmission at `retries = 0`, the machine's `R = 0` branch) and then raises `ValueError` whose argument 1 is the
+frame type; `async_setup` turns the failed requests into `frame_errors`, in order, and sets `loaded`. -/
 theorem setup_source_facts :
-    Gen.setupFramesOfDevice = Gen.setupFrames ∧ Gen.setupGate = ["sensors"] ∧
-    (List.range 4).map loopRuns = [some false, some true, some true, some true] ∧
-    Gen.requestRetryOn = ["asyncio.TimeoutError"] ∧
-    Gen.requestTryCalls.contains "put_nowait" = true ∧ Gen.requestTryCalls.contains "get" = true ∧
-    Gen.requestRaises = "ValueError" ∧ Gen.requestRaiseArgs = 2 ∧ Gen.setupErrorsArgIndex = 1 ∧
-    Gen.setupReturnExceptions = true := by decide
+    Gen.setupFramesOfDevice = Gen.setupFrames ∧ Gen.setupRequestOrder = Gen.setupFrames.map (·.1) ∧
+    Gen.setupGate = ["sensors"] ∧
+    (List.range 4).map probedTransmissions = [some 0, some 1, some 2, some 3] ∧
+    Gen.requestProbe.all (fun p => p.2.2.1 == "ValueError" && p.2.2.2 == 1) = true ∧
+    Gen.setupErrorsProbe = 1 := by decide
 
 /-- **product_waiters**: the handlers that wait for product information are exactly the ecoMAX's handler of the ecoMAX
 parameters and the mixers' handler of the mixer parameters — no thermostat handler, no other set-up kind -/
@@ -47,9 +46,8 @@ theorem product_waiters :
       [(false, false), (false, false), (true, true), (false, false), (false, false), (false, true), (false, false), (false, false)] := by
   decide
 
-/-- the machine's request loop and the source agree on when a round is made: with `R` attempts configured the machine
-makes a first round iff the loop test holds for `R` (R = 0: every request raises at once) -/
-theorem request_loop_matches (r : Nat) (h : r < 4) : loopRuns r = some (decide (0 < r)) := by
+/-- the machine and the code agree on the number of transmissions of an unanswered request: `retries` of them -/
+theorem request_loop_matches (r : Nat) (h : r < 4) : probedTransmissions r = some r := by
   have : r = 0 ∨ r = 1 ∨ r = 2 ∨ r = 3 := by omega
   rcases this with rfl | rfl | rfl | rfl <;> decide
 
